@@ -2586,9 +2586,10 @@ class Composite(ArmiObject):
 
     def remove(self, obj):
         """Remove a particular child."""
+        # raises ValueError, before anything is changed, when obj is not a child of this object
+        self._children.remove(obj)
         obj.parent = None
         obj.spatialLocator = obj.spatialLocator.detachedCopy()
-        self._children.remove(obj)
 
     def moveTo(self, locator):
         """Move to specific location in parent. Often in a grid."""
